@@ -18,6 +18,7 @@ import (
 	"github.com/ipfs/go-graphsync"
 	"github.com/ipfs/go-graphsync/ipldutil"
 	gsmsg "github.com/ipfs/go-graphsync/message"
+	"github.com/ipfs/go-graphsync/panics"
 	"github.com/ipfs/go-graphsync/responsemanager/hooks"
 	"github.com/ipfs/go-graphsync/responsemanager/responseassembler"
 )
@@ -46,6 +47,8 @@ type ResponseTask struct {
 	Traverser      ipldutil.Traverser
 	Signals        ResponseSignals
 	ResponseStream ResponseStream
+	// PanicCallback is told about a panic raised by the storage read function
+	PanicCallback panics.CallBackFn
 }
 
 // ResponseSignals are message channels to communicate between the manager and the QueryExecutor
@@ -226,7 +229,13 @@ func (qe *QueryExecutor) loadBlock(ctx context.Context, taskData ResponseTask, l
 	defer span.End()
 
 	log.Debugf("will load link=%s", lnk)
-	result, err := taskData.Loader(lnkCtx, lnk)
+	result, err, panicErr := safeLoad(taskData, lnkCtx, lnk)
+	if panicErr != nil {
+		// the storage read function panicked: this response fails, the process goes on
+		log.Errorf("panic loading link=%s, nBlocksRead=%d, err=%s", lnk, taskData.Traverser.NBlocksTraversed(), panicErr)
+		taskData.Traverser.Error(panicErr)
+		return nil, panicErr
+	}
 
 	if err != nil {
 		log.Errorf("failed to load link=%s, nBlocksRead=%d, err=%s", lnk, taskData.Traverser.NBlocksTraversed(), err)
@@ -252,6 +261,18 @@ func (qe *QueryExecutor) loadBlock(ctx context.Context, taskData ResponseTask, l
 	}
 	log.Debugf("successfully loaded link=%s, nBlocksRead=%d", lnk, taskData.Traverser.NBlocksTraversed())
 	return data, nil
+}
+
+// safeLoad calls the storage read function, which is supplied by the user of the library and runs on a
+// worker goroutine: a panic in it is recovered, passed to the panic callback and returned as an error
+func safeLoad(taskData ResponseTask, lnkCtx ipld.LinkContext, lnk ipld.Link) (result io.Reader, err error, panicErr error) {
+	defer func() {
+		if rerr := panics.MakeHandler(taskData.PanicCallback)(recover()); rerr != nil {
+			panicErr = rerr
+		}
+	}()
+	result, err = taskData.Loader(lnkCtx, lnk)
+	return result, err, nil
 }
 
 func (qe *QueryExecutor) sendResponse(ctx context.Context, p peer.ID, taskData ResponseTask, link ipld.Link, data []byte) error {
